@@ -314,6 +314,21 @@ def run_check(prop, tier, seed):
             nat = native_run(c._module, c.name, [killed[0].get('model', {})], r['override'])
             crec['native_replay'] = 'confirmed' if nat and nat[0].get('failed') else \
                 ('not-confirmed: %s' % json.dumps(nat[0])[:300])
+        if status == 'undecided' and CONTRACTS[r['name']].native and r.get('override'):
+            # the solver could neither prove nor refute the mutant: evaluate the contract's clauses natively on the
+            # MUTATED source over sampled inputs; a failing clause shows the contract distinguishes the mutant
+            from pyvc import sample as _sampler
+            c = CONTRACTS[r['name']]
+            try:
+                cases = _sampler.samples(c, 300, seed)
+                nat = native_run(c._module, c.name, cases, r['override'])
+                bad = [x for x in nat if x.get('pre_ok') and x.get('failed')]
+                if bad:
+                    crec['status'] = status = 'killed'
+                    crec['failed_obligation'] = str(bad[0]['failed'][0].get('clause'))[:200]
+                    crec['killed_by'] = 'native evaluation of the contract clauses on the mutated source (%d of %d sampled inputs fail; solver undecided)' % (len(bad), len(nat))
+            except Exception as e:      # noqa
+                crec['sampling_error'] = str(e)[-200:]
         canary_records.append(crec)
         if status == 'SURVIVED':
             machinery_errors.append('canary survived: %s — %s (engine or contract too weak)' % (r['name'], r['desc']))
